@@ -4,6 +4,9 @@ from rules import zincspec
 
 def check(ctx):
     rep = ctx.rep
+    from rules import zincspec as _zs
+    nna = _zs.check_number_no_arith(ctx, rep)
+    rep.floor("functions of the Zinc number decoder", nna, 5)
     from rules import tz as _tzr
     nr = _tzr.check_component_rebuild(ctx, rep)
     rep.floor("timestamps rebuilt from components", nr, 1)
